@@ -109,6 +109,9 @@ structure MState where
   refWl : List (Nat × List Nat) := []    -- per peer: the reference fold of its wantlist messages (C06 / C07)
   owed : List (Nat × Nat) := []          -- (peer, cid): new wants whose blockstore lookup has not started yet
   stored : List (Nat × List Nat) := []   -- cid stored by the node's own fetch since the last drain, peers waiting for it then
+  now : Nat := 0                         -- virtual time (sum of the ticks)
+  refreshAt : Nat := 30000               -- when the current 30 s refresh period ends
+  dueFull : List (Nat × String) := []    -- peers that are due a full wantlist, and why (refresh expired / connection closed mid-send)
 
 def rm (l ks : List Nat) : List Nat := l.filter (· ∉ ks)
 def add (l ks : List Nat) : List Nat := l ++ ks.filter (· ∉ l)
@@ -216,6 +219,18 @@ def checkState (st : MState) (s : Snap) : List Viol :=
 def bump (l : List (Nat × Nat)) (q : Nat) : List (Nat × Nat) :=
   if l.any (·.1 == q) then l.map fun e => if e.1 == q then (e.1, e.2 + 1) else e else l ++ [(q, 1)]
 
+/-- C05: the connection a transmission to peer `p` is tracked on closes while the peer keeps another
+one: the peer is due a full wantlist. -/
+def markClosedMidSend (st : MState) (prev snap : Snap) (p c : Nat) : MState :=
+  match lookup prev.peers p, lookup snap.peers p with
+  | some a, some _ =>
+    let tracked := (a.sending.startsWith "req:" || a.sending.startsWith "rcv:" || a.sending.startsWith "snd:")
+      && a.sending.endsWith s!":{c}"
+    if tracked && !(st.dueFull.any (·.1 == p)) then
+      { st with dueFull := st.dueFull ++ [(p, s!"connection {c} closed while a transmission was tracked on it")] }
+    else st
+  | _, _ => st
+
 /-- One (op, implementation output) pair. -/
 def stepMon (st : MState) (op : String) (out : String) : MState × List Viol :=
   let st := { st with line := st.line + 1 }
@@ -317,6 +332,7 @@ def stepMon (st : MState) (op : String) (out : String) : MState × List Viol :=
           | _, _ => (st, [])
         | ["closed", p, _c, rem] =>
           let p := p.toNat?.getD 0
+          let st := markClosedMidSend st prev snap p (_c.toNat?.getD 0)
           let st := if rem == "0" then { st with refWl := st.refWl.filter (·.1 != p), owed := st.owed.filter (·.1 != p) } else st
           if rem == "0" then
             (st, (if (lookup snap.swl p).isSome || snap.swt.any (fun kp => p ∈ kp.2) then [("C13", s!"server-side state about peer {p} kept after its last connection closed")] else []) ++
@@ -330,14 +346,47 @@ def stepMon (st : MState) (op : String) (out : String) : MState × List Viol :=
         | ["closing", p, c] =>
           let p := p.toNat?.getD 0
           let c := c.toNat?.getD 0
+          let st := markClosedMidSend st prev snap p c
           match lookup prev.peers p, lookup snap.peers p with
           | some a, none =>
             (st, if a.conns.all (· == c) then []
                  else [("C15", s!"peer {p} discarded when connection {c} was closing although its connections {a.conns} remained")])
           | _, _ => (st, [])
+        | ["tick", ms] => ({ st with now := st.now + ms.toNat?.getD 0 }, [])
+        | ["sending", p, _src, "ready"] =>
+          -- the transmission was reported complete after all (a report the real handler cannot send once
+          -- it is closing, but the node stream feeds arbitrary reports): nothing was lost
+          let p := p.toNat?.getD 0
+          match lookup snap.peers p with
+          | some ps =>
+            if ps.sending == "ready" then
+              ({ st with dueFull := st.dueFull.filter fun (q, why) => !(q == p && why.startsWith "connection") }, [])
+            else (st, [])
+          | none => (st, [])
         | "drain" :: _ =>
           -- outputs of the drain
           let sends := outToks.filterMap parseOutTok
+          -- C05: the refresh period ended: every peer of that moment is due a full wantlist
+          let expired := st.now ≥ st.refreshAt
+          let due0 := if expired then
+              st.dueFull ++ (prev.peers.filterMap fun (p, _) =>
+                if st.dueFull.any (·.1 == p) then none else some (p, s!"the 30 s refresh period ended at {st.now} ms"))
+            else st.dueFull
+          let st := if expired then { st with refreshAt := st.now + 30000 } else st
+          -- … it is sent in this drain, or stays pending, or the transmission that was tracked on the closed
+          -- connection is still waiting for its failure report / acknowledgement timeout
+          let vdue := due0.filterMap fun (p, why) =>
+            match lookup snap.peers p with
+            | none => none
+            | some ps =>
+              match sends.find? (·.p == p) with
+              | some e => if e.full then none else some ("C05", s!"peer {p} is due a full wantlist ({why}) but was sent an update")
+              | none =>
+                if ps.sendFull || !(ps.sending == "ready") then none
+                else some ("C05", s!"peer {p} is due a full wantlist ({why}); after a poll it is idle, nothing was sent and no full wantlist is pending")
+          let st := { st with dueFull := due0.filter fun (p, _) =>
+            (lookup snap.peers p).isSome && !(sends.any fun e => e.p == p && e.full) &&
+            !(vdue.any fun v => v.2.startsWith s!"peer {p} ") }
           let blks := outToks.filterMap parseBlk
           let evs := outToks.filterMap fun t => match t.splitOn ":" with
             | ["resp", q, d] => some (q.toNat?.getD 0, some (d.toNat?.getD 999999999))
@@ -437,7 +486,7 @@ def stepMon (st : MState) (op : String) (out : String) : MState × List Viol :=
             else none
           ({ st with events := events, calls := calls ++ st.calls, puts := puts ++ st.puts, ghosts := gs, refWl := refWl,
                      owed := if snap.stasks == 0 then [] else owed, stored := [] },
-           v03 ++ v01 ++ vsend ++ vdup ++ v07 ++ v06 ++ vowed ++ vstored ++ vlive ++ vresp)
+           v03 ++ v01 ++ vsend ++ vdup ++ v07 ++ v06 ++ vowed ++ vstored ++ vlive ++ vresp ++ vdue)
         | _ => (st, [])
       let st := { st with prev := snap }
       (st, v ++ checkState st snap)
